@@ -94,9 +94,10 @@ def parse(T, data: bytes, pos: int = 0) -> Obs:
 
 
 class Input:
-    __slots__ = ("label", "data", "status", "value", "consumed", "mask", "vals")
+    __slots__ = ("label", "data", "status", "value", "consumed", "mask", "vals", "canonical")
 
-    def __init__(self, label, data, status, value=None, consumed=None, mask=None, vals=None):
+    def __init__(self, label, data, status, value=None, consumed=None, mask=None, vals=None, canonical=True):
+        self.canonical = canonical
         self.label = label
         self.data = data
         self.status = status  # "ok" | "eof" | "invalid" | "undef"
@@ -108,8 +109,9 @@ class Input:
 
 def model_decode(st, data: bytes, cfg: Cfg, label: str, vals=None) -> Input:
     try:
-        v, end, mask = decode_with_mask(st, data, cfg)
-        return Input(label, data, "ok", v, end, mask, vals)
+        info: dict = {}
+        v, end, mask = decode_with_mask(st, data, cfg, info=info)
+        return Input(label, data, "ok", v, end, mask, vals, canonical=not info["noncanonical"])
     except RefEOF:
         return Input(label, data, "eof", vals=vals)
     except RefInvalid:
